@@ -26,6 +26,8 @@ CHECKS["C03"] = dict(
     steps=[
         dict(name="exhaustive", run="^TestExhaustiveSequences$", quick=1, thorough=1),
         dict(name="histories", run="^TestConcurrentHistories$", quick=10000, thorough=1500000, shards_thorough=13),
+        dict(name="first-nack-in-process", run="^TestZeroValueNackFirstInProcess$", quick=1, thorough=1),
+        dict(name="first-ack-in-process", run="^TestZeroValueAckFirstInProcess$", quick=1, thorough=1),
         dict(name="copy-during-settlement", run="^TestCopyDuringSettlement$", quick=3000, thorough=300000, shards_thorough=2),
         # zero-value messages with concurrent readers: the field read is racy by design, so no race detector here
         dict(name="zero-value-readers", run="^TestZeroValueConcurrentReaders$", quick=60, thorough=3000, shards_thorough=2, norace=True),
@@ -97,7 +99,7 @@ CHECKS["C20"] = dict(
     level_note="Trusted: scripted Pub/Subs, the precedence model in c20_test.go, prometheus Gather(). Label values other than success/acked are summed over. The handler metrics middleware is installed once.",
     steps=[dict(name="pubstacks", run="^TestPublisherStacks$", quick=1500, thorough=600000, shards_thorough=8),
            dict(name="substacks", run="^TestSubscriberStacks$", quick=300, thorough=80000, shards_thorough=4),
-           dict(name="routermetrics", run="^TestRouterMetrics$", quick=300, thorough=80000, shards_thorough=4)],
+           dict(name="routermetrics", run="^(TestRouterMetrics|TestHandlerMetricsRepeatedInvocations)$", quick=300, thorough=80000, shards_thorough=4)],
 )
 
 CHECKS["C15"] = dict(
@@ -127,7 +129,8 @@ CHECKS["C14"] = dict(
     level_note="Trusted: the reference hash in c14_test.go, wall-clock used conservatively (retention only asserted for re-presentations that ended inside the window). Interleavings are sampled; the race detector is on.",
     steps=[dict(name="concurrent", run="^TestConcurrentPresentations$", quick=1000, thorough=320000, shards_thorough=40),
            dict(name="laws", run="^TestHasherLaws$", quick=3000, thorough=1000000, shards_thorough=2),
-           dict(name="retention", run="^TestRetentionWindow$", quick=60, thorough=3200, shards_thorough=8)],
+           dict(name="retention", run="^TestRetentionWindow$", quick=60, thorough=3200, shards_thorough=8),
+           dict(name="idle", run="^TestReacceptanceAfterIdle$", quick=5, thorough=80, shards_thorough=4)],
 )
 
 _GC_NOTE = "Trusted: the history recorder and invariants in harness/gcprog (one atomic logical clock; 'about to settle' stamped before Ack/Nack). Interleavings are sampled (noise, forced parks at hook points, GOMAXPROCS), not enumerated; absence ('nothing else receivable') is observed over hold windows and can only miss violations. A known finding (C05-F1) is excluded by construction."
@@ -143,7 +146,8 @@ CHECKS["C05"] = dict(
     technique="property-based testing of generated concurrent programs (rapid) against a real GoChannel: hold-window observation of in-flight exclusivity, blocking-Publish/Ack ordering over the recorded history; known finding reproduced separately",
     level_text="The same program machinery biased to held settlements and blocking mode: the consumer reads its channel while it holds an unsettled message (nothing may arrive), and for blocking mode the history must contain the Ack of every pre-existing subscription before the Publish return stamp, in publish order per publisher; every Publish must return.",
     level_note=_GC_NOTE,
-    steps=[dict(name="inflight", run="^TestOneInFlightAndBlocking$", quick=500, thorough=160000, shards_thorough=15),
+    steps=[dict(name="inflight", run="^TestOneInFlightAndBlocking$", quick=500, thorough=160000, shards_thorough=13),
+           dict(name="released", run="^TestBlockedPublishReleased$", quick=300, thorough=60000, shards_thorough=2),
            dict(name="known-finding", run="^TestKnownFindingF1$", quick=1, thorough=1)],
 )
 CHECKS["C11"] = dict(
